@@ -405,7 +405,7 @@ def _DefocusPSF_1D(PSF_size, PSF_param):
         PSF[center] = 1
     else:
         PSF = np.ones(PSF_size) / (np.pi * PSF_param**2)
-        k = np.arange(1, PSF_size+1)
+        k = np.arange(PSF_size) # zero-based indices (center is a zero-based index)
         aa = (k-center)**2
         idx = np.array((aa > (PSF_param**2)))
         PSF[idx] = 0
@@ -1392,7 +1392,7 @@ def _DefocusPSF(dim, R):
         PSF[center[0], center[1]] = 1
     else:
         PSF = np.ones((m, n)) / (np.pi * R**2)
-        k = np.arange(1, max(m, n)+1)
+        k = np.arange(max(m, n)) # zero-based indices (center holds zero-based indices)
         aa, bb = (k-center[0])**2, (k-center[1])**2
         A, B = np.meshgrid(aa, aa), np.meshgrid(bb, bb)
         idx = np.array(((A[0].T + B[0]) > (R**2)))
